@@ -58,6 +58,7 @@ func (dt *deleteTracker[Obj]) close() {
 	}
 
 	// Remove the delete tracker from the table.
+	verifHook("dt-close-before-wtxn")
 	wtxn := dt.db.WriteTxn(dt.table)
 	txn := wtxn.unwrap()
 	dt.db = nil
